@@ -944,3 +944,16 @@ package evaluator
 //@   ensures  !named ==> ncalls == 0
 //@   ensures  len(args) >= 2 && !named ==> res == object.BuiltInNil
 //@   assigns  nothing
+//
+// ---- C09: m[k] for a non-scalar k offers every stored non-scalar key to `==`, in insertion order ---------------
+// one `k == key` call per stored pair, on the pair of that position, until one answers true (its value is the
+// result) or fails (the error is the result); a scalar k is looked up by its hash and yields the value stored there
+//@ props C09
+//@ func evaluator.findElemInMap(env, kwargs, args) res
+//@   requires argsOK(args)
+//@   requires env != nil && kwargs != nil
+//@   let m := traceMap(args[0])
+//@   let ix := traceArr(args[1])
+//@   ensures  len(args) >= 2 && m != nil && ix != nil && len(ix.Elems) >= 1 && isT(ix.Elems[0], object.PanScalar) && has(*m.Pairs, hashOf(ix.Elems[0])) ==> res == (*m.Pairs)[hashOf(ix.Elems[0])].Value
+//@   loop 1 step ncalls == prev(ncalls) + 1 && called(prev(ncalls), evaluator.builtInCallProp) && arg1(prev(ncalls)) == env && nvarargs(prev(ncalls)) == 4 && arg4(prev(ncalls)) == index && arg6(prev(ncalls)) == (*self.NonHashablePairs)[rangeindex].Key
+//@   loop 1 step result(prev(ncalls)) != object.BuiltInTrue
